@@ -1418,6 +1418,10 @@ func (gqm *GroupQuotaManager) doUpdateOneGroupMinQuotaNoLock(quotaName string, n
 			return
 		}
 		parentRuntimeCalculator.updateOneGroupMinQuota(curQuotaInfo)
+		// the request of a quota that does not lend follows its min, hand it to the calculator as well
+		if parentRuntimeCalculator.needUpdateOneGroupRequest(curQuotaInfo) {
+			parentRuntimeCalculator.updateOneGroupRequest(curQuotaInfo)
+		}
 
 		newSubLimitReq := curQuotaInfo.getLimitRequestNoLock()
 		deltaRequest := quotav1.Subtract(newSubLimitReq, oldSubLimitReq)
